@@ -25,10 +25,11 @@ INT_T = ("int", "bool", "_Bool", "size_t", "unsigned int", "long", "uint32_t", "
 
 
 class CommitTracker(ConstTracker):
-    def __init__(self, P, fn, sysfail):
+    def __init__(self, P, fn, sysfail, modes=()):
         ConstTracker.__init__(self, fn)
         self.P = P
         self.sysfail = sysfail
+        self.modes = modes
         self.roots = Roots(fn, self.cn)
         self.kind = failure_value_kind(fn)
         self.violations = {}
@@ -46,6 +47,23 @@ class CommitTracker(ConstTracker):
                     # a store on the failure path: undo of the same field
                     return frozenset(x for x in extra if not (x[0] == "commit" and x[1] == fld))
                 return extra | {("commit", fld, n.id)}
+            # a *mode switch*: a pointer member whose being non-NULL other files read as "feature enabled"
+            # (vn_m_error_vector), set from NULL to a fresh allocation under `if (<it> == NULL)`
+            if l.k == "MemberExpr" and "*" in (l.ctype or "") and l.member in self.modes and self.roots.root(l) is not None:
+                fld = "mode:" + l.member
+                if any(x[0] == "failed" for x in extra):
+                    return frozenset(x for x in extra if not (x[0] == "commit" and x[1] == fld))
+                r = n.kids[1].strip()
+                for a in n.ancestors():
+                    if a.k == "IfStmt":
+                        kids = [z for z in a.kids if z is not None]
+                        if len(kids) >= 2 and kids[1].is_ancestor_of(n):
+                            for t in kids[0].walk():
+                                if t.k == "BinaryOperator" and t.op == "==" and (is_null(t.kids[1]) or is_null(t.kids[0])):
+                                    o = t.kids[0].strip() if is_null(t.kids[1]) else t.kids[1].strip()
+                                    if (o.k == "MemberExpr" and o.member == l.member) or \
+                                            (o.k == "DeclRefExpr" and r.k == "DeclRefExpr" and o.refdecl == r.refdecl):
+                                        return extra | {("commit", fld, n.id)}
         elif k == "CallExpr":
             if n.callee in HOLDS:
                 if any(x[0] == "failed" for x in extra):
@@ -138,11 +156,24 @@ def run(P, tier="quick"):
                     break
         memo[k] = r
         return r
+    # mode switches: pointer members compared with NULL in at least three functions spread over at least two files
+    tests = {}
+    for f in P.lib_functions():
+        if f.body is None:
+            continue
+        for n in f.walk():
+            if n.k == "BinaryOperator" and n.op in ("==", "!="):
+                a, b = n.kids[0].strip(), n.kids[1].strip()
+                for x, y in ((a, b), (b, a)):
+                    if x.k == "MemberExpr" and "*" in (x.ctype or "") and is_null(y):
+                        tests.setdefault(x.member, set()).add((f.file, f.name))
+    modes = {m for m, fs in tests.items() if len(fs) >= 3 and len({fl for fl, _ in fs}) >= 2}
+    R.counts["mode_switch_members"] = len(modes)
     nf = 0
     for f in P.lib_functions():
         if f.cfg is None or not obj_params(f) or f.file in LATE_FAILURE_FILES:
             continue
-        tr = CommitTracker(P, f, sysfail)
+        tr = CommitTracker(P, f, sysfail, modes)
         try:
             Engine(f, tr, 300000).run()
         except TooManyStates as e:
